@@ -2,7 +2,8 @@
 from reg._common import COMMON_ASSUME
 
 ENTRY = {
-    'lean_files': ['Tables/C13.lean', 'Props/C13.lean'],
+    'extractors': ['translate_py.py', 'translate_f90.py'],
+    'lean_files': ['Tables/SrcF90Triangle.lean', 'Tables/SrcPyTriangleCubic.lean', 'Tables/SrcPyTriangleSub.lean', 'Tables/C13.lean', 'Props/C13.lean'],
     'lemma_files': ['Lemmas/Valid.lean', 'Lemmas/Shift2.lean', 'Lemmas/Triangle.lean', 'Lemmas/TriSpecialize.lean', 'Model/Basic.lean',
                     'Model/Curve.lean', 'Model/Triangle.lean', 'Model/TriDeriv.lean', 'Model/Valid.lean'],
     'script': 'props/c13.py',
